@@ -1,0 +1,18 @@
+//go:build verif
+
+package vaxis
+
+// Yield points for property C10 (concurrency, shutdown). VerifC10Yield, when set, is called at the
+// protocol points of Close, Suspend, PostEvent, PostEventBlocking and of the input goroutine's
+// parser arm, with the name of the point (e.g. "close.won": the caller has just set vx.closed;
+// "suspend.signalled": the close signal has been sent to the parser; "input.seq": a sequence has
+// been received from the parser). A verification harness uses it to record the order of these
+// steps and to hold a goroutine at a point until a chosen moment. It changes no behaviour; without
+// the build tag verifC10 is an empty function.
+var VerifC10Yield func(vx *Vaxis, point string)
+
+func verifC10(vx *Vaxis, point string) {
+	if h := VerifC10Yield; h != nil {
+		h(vx, point)
+	}
+}
